@@ -196,13 +196,45 @@ func c11GenValue(rng *verifkit.Rand, dirty bool) any {
 	return c11cleanValues[rng.Intn(len(c11cleanValues))]
 }
 
-var c11fieldPool = []string{"f0", "f1", "f2", "root.f0", "root.f1", "root.g"}
+// field names: plain and root.-prefixed, including names whose first letters are those of
+// the prefix itself and names that look like the prefix.
+var c11fieldPool = []string{
+	"f0", "f1", "f2", "root.f0", "root.f1", "root.g",
+	"operation", "team_id", "region", ".hidden", "root", "rootx", "roots.a", "r", "o.k", "t",
+	"root.operation", "root.team_id", "root.region", "root.root", "root.root.cause", "root.o", "root.t.x", "root..x", "root.r", "root.rootx", "root.other",
+}
+
+// c11SpanNames: the span field names a case uses = what the configured fields read, a
+// few more from the pool, and "other".
+func c11SpanNames(rng *verifkit.Rand, fields []string) []string {
+	seen := map[string]bool{}
+	var out []string
+	add := func(f string) {
+		b, _ := c11Bare(f)
+		if b != "" && !seen[b] {
+			seen[b] = true
+			out = append(out, b)
+		}
+	}
+	for _, f := range fields {
+		add(f)
+	}
+	for k := 0; k < 2; k++ {
+		add(c11fieldPool[rng.Intn(len(c11fieldPool))])
+	}
+	add("other")
+	return out
+}
 
 func c11GenFields(rng *verifkit.Rand) []string {
 	n := rng.Range(1, 4)
 	out := make([]string, 0, n)
 	for len(out) < n {
-		out = append(out, c11fieldPool[rng.Intn(len(c11fieldPool))])
+		if rng.Chance(0.45) { // the original small pool keeps collisions between list entries frequent
+			out = append(out, c11fieldPool[rng.Intn(6)])
+		} else {
+			out = append(out, c11fieldPool[rng.Intn(len(c11fieldPool))])
+		}
 	}
 	return out
 }
@@ -224,7 +256,7 @@ func c11GenTrace(rng *verifkit.Rand, fields []string, dirty bool) c11trace {
 		tr.Spans[i] = c11span{}
 	}
 	// few values per field so that duplicates across spans are common
-	for _, name := range []string{"f0", "f1", "f2", "g", "other"} {
+	for _, name := range c11SpanNames(rng, fields) {
 		pool := make([]any, rng.Range(1, 3))
 		for j := range pool {
 			pool[j] = c11GenValue(rng, dirty)
@@ -276,9 +308,11 @@ func c11GenWideTrace(rng *verifkit.Rand, fields []string) (c11trace, int) {
 	}
 	if rng.Chance(0.7) {
 		tr.Root = rng.Intn(n)
-		tr.Spans[tr.Root]["f0"] = "rootval"
-		tr.Spans[tr.Root]["f1"] = int64(7)
-		tr.Spans[tr.Root]["g"] = true
+		for j, name := range c11SpanNames(rng, fields) {
+			if name != "other" {
+				tr.Spans[tr.Root][name] = verifkit.Pick[any](rng, "rootval", int64(7+j), true, "r"+strconv.Itoa(j))
+			}
+		}
 	}
 	count := func() int {
 		c := 0
